@@ -1,13 +1,105 @@
-"""C04 bounded part: run-time contract on the records / candidates of the real program (see bcheck.records)."""
+"""C04 bounded part: (a) run-time contract on the records / candidates of the real program (see bcheck.records);
+(b) "every candidate alignment": the real Aligner.align on generated label data with 2-6 nearby seed peaks, half of the cases translated so that
+the seed diagonals start around or before the reference origin (negative seed positions) or end past the last reference label; the candidate's
+Confidence is recomputed from the raw maps, each segment's peak and the scoring parameters."""
 from bcheck import pipe_driver as pd
+from bcheck.common import pmap, result, merge, time_limit, CaseTimeout
+
+ALIGN = 'src/alignment/aligner.py::Aligner.align'
+
+
+def translated(case, seed):
+    """move the reference so that the smallest seed lies between -3000 and +300 (labels that would get a negative coordinate are dropped),
+    or cut the reference shortly after the start of the query's window (the window [seed, seed + query length] runs past its end)"""
+    import random
+    rnd = random.Random(seed ^ 0x51f15e)
+    c = dict(case)
+    which = rnd.randrange(4)
+    if which == 0:
+        shift = min(case['peaks']) - rnd.randint(-3000, 300)
+        ref = [p - shift for p in case['ref'] if p - shift >= 0]
+        if len(ref) >= 3:
+            c.update(ref=ref, peaks=[p - shift for p in case['peaks']])
+    elif which == 1:
+        end = max(case['peaks']) + case['query'][-1] * rnd.uniform(0.3, 0.8)
+        ref = [p for p in case['ref'] if p <= end]
+        if len(ref) >= 3:
+            c.update(ref=ref)
+    return c
+
+
+def aligner_case(case):
+    from bcheck import conflict_monitor as cm
+    from bcheck import records as R
+    from bcheck.c01 import align_case
+    row, ref, query = align_case(case)
+    nseg = len([s for s in row.segments if s.positions])
+    if not row.alignedPairs:
+        return [], nseg, None
+    bad, total = R.c04_row(row, ref, query, (1000, 1., -250, case['maxDistance']))
+    out = []
+    for b in bad:
+        mechs = R.conflict_mechanisms(cm.events(), 5) if 'counted_twice' in b else []
+        known = [m for m in mechs if m[1]]
+        mech = known[0][1] if known and not [m for m in mechs if m[1] is None] else None
+        out.append((b, mech))
+    return out, nseg, dict(confidence=row.confidence, recomputed=total, peaks=[s.peak.position for s in row.segments if s.positions])
+
+
+def aligner_chunk(seeds):
+    from bcheck.c15 import build_case
+    out, nt = [], 0
+    for s in seeds:
+        case = translated(build_case(s), s)
+        try:
+            with time_limit(20):
+                bad, nseg, detail = aligner_case(case)
+        except CaseTimeout:
+            bad, nseg, detail = [('terminates', None)], 0, None
+        except Exception as e:
+            bad, nseg, detail = [(f'no_exception:{type(e).__name__}', None)], 0, repr(e)[:200]
+        nt += 1 if nseg >= 2 else 0
+        if bad:
+            out.append((case, bad, detail))
+    return len(seeds), nt, out[:10]
 
 
 def bounded(repo, tier, seed):
     n = 56 if tier == 'quick' else 1500
-    return pd.run(repo, tier, seed, ['C04'], MODES if tier != 'quick' else (lambda i: [MODESQ[i % len(MODESQ)]]), n, params_list=PARAMS)
+    r1 = pd.run(repo, tier, seed, ['C04'], MODES if tier != 'quick' else (lambda i: [MODESQ[i % len(MODESQ)]]), n, params_list=PARAMS)
+    na = 20000 if tier == 'quick' else 600000
+    seeds = [seed * 1000003 + i for i in range(na)]
+    res = pmap(aligner_chunk, [seeds[i:i + 150] for i in range(0, na, 150)], repo)
+    viol, known = {}, {}
+    for r in res:
+        for case, bad, detail in r[2]:
+            for clause, mech in bad:
+                key = f"{ALIGN}::monitor::C04::{clause}" + (f"::{mech}" if mech else '')
+                tgt = known if mech else viol
+                if key not in tgt or len(case['query']) < len(tgt[key]['input']['aligner_case']['query']):
+                    tgt[key] = dict(key=key, blame=ALIGN, input=dict(aligner_case=case), observed=detail, required='C04 statement')
+    from bcheck.c15 import build_case
+    r2 = result(sum(r[0] for r in res), sum(r[1] for r in res),
+                "candidate rows of the real Aligner.align on generated label data with 2-6 seed peaks on neighbouring diagonals (the C15 generators); a quarter "
+                "of the cases translated so that the smallest seed lies between -3000 and +300 (seed diagonals starting before the reference origin), a "
+                "quarter with the reference cut inside the query's window; Confidence recomputed from the raw maps, each segment's peak position and the "
+                "scoring parameters (offsets within maxDistance, nothing in a segment's span unaccounted for, nothing twice); non-trivial = >= 2 segments",
+                [translated(build_case(seeds[0]), seeds[0])], list(viol.values())[:5] + list(known.values())[:3], exhaustive=False, bounds=f"{na} generated cases")
+    return merge([r1, r2])
 
 
-replay = pd.replay
+def replay(repo, rp):
+    i = rp['input']
+    if 'aligner_case' in i:
+        from bcheck.common import use_repo
+        use_repo(repo)
+        bad, nseg, detail = aligner_case(i['aligner_case'])
+        want = rp.get('key', '')
+        hit = [b for b in bad if f"{ALIGN}::monitor::C04::{b[0]}" + (f"::{b[1]}" if b[1] else '') == want]
+        return (not hit), dict(violated=bad, detail=detail)
+    return pd.replay(repo, rp)
+
+
 MODES = ['best', 'separate', 'all']
 MODESQ = ['best', 'separate', 'all']
 PARAMS = [{}, {'dp': 2.0}, {'sp': 800, 'dp': 1.5, 'd': 1200}, {'dp': 0.5, 'su': -100}, {'su': -400, 'ms': 1500, 'bs': 600}, {'d': 2500, 'dp': 0.3}]
